@@ -13,6 +13,7 @@ import (
 )
 
 type seqP struct {
+	Exotic  bool     `json:"exotic,omitempty"`
 	Cfg     Cfg      `json:"cfg"`
 	Steps   int      `json:"steps"`
 	Comps   []string `json:"comps,omitempty"`
@@ -69,6 +70,14 @@ func seqCases(prop, tier string, seed uint64) []Case {
 		}
 	}
 	cfgs := someCfgs(r, ncfg)
+	if prop == "C04" {
+		// position arithmetic: record sizes that are not in the usual list, not powers of two, and larger than a block has bytes
+		for i, rs := range []int{5, 6, 10, 100, 512, 513, 1000, 1024, 2048} {
+			c := cfgs[i%len(cfgs)]
+			c.RS = rs
+			cfgs = append(cfgs, c)
+		}
+	}
 	if prop == "C05" {
 		// the content clause of C05 is stated for no compression and no encryption: half of the cases are plain
 		for i := range cfgs {
@@ -84,9 +93,16 @@ func seqCases(prop, tier string, seed uint64) []Case {
 	for i := 0; i < n; i++ {
 		cfg := cfgs[i%len(cfgs)]
 		st := steps/2 + r.Intn(steps/2+1)
-		p := seqP{Cfg: cfg, Steps: st}
-		if prop == "C12" {
-			p.Comps = []string{"a", "ab", "a_", "a%", "a b", "a.b", "ä", "aä", "%", "_"}
+		p := seqP{Cfg: cfg, Steps: st, Exotic: i%3 == 2}
+		if i%48 == 47 && prop != "C07" && prop != "C01" {
+			// long histories over many names: wide directories (dozens of children), tapes of hundreds of records
+			p.Steps = st * 5
+			for k := 0; k < 40; k++ {
+				p.Comps = append(p.Comps, fmt.Sprintf("n%02d", k))
+			}
+			p.Comps = append(p.Comps, "a", "ab", "a_", "a%")
+		} else if prop == "C12" {
+			p.Comps = []string{"a", "ab", "a_", "a%", "a b", "a.b", "ä", "aä", "%", "_", "[ab]", "a[", "a*", "a?", ".a"}
 		}
 		pb, _ := json.Marshal(p)
 		cases = append(cases, Case{ID: fmt.Sprintf("%s-h%04d", strings.ToLower(prop), i), Seed: subSeed(seed, prop, tier, fmt.Sprint(i)), Kind: "random", P: pb})
@@ -665,7 +681,12 @@ func seqRun(prop, tier string, c Case, w *Worker) (res Result) {
 		return
 	}
 	h.ops = h.ops[:0]
-	gen := NewGen(newRand(c.Seed), genOptsFor(prop, rig.Cfg, p.Comps))
+	gopts := genOptsFor(prop, rig.Cfg, p.Comps)
+	gopts.Exotic = p.Exotic
+	if p.Exotic {
+		h.kind = "exotic"
+	}
+	gen := NewGen(newRand(c.Seed), gopts)
 	c05 := &c05State{}
 	if prop == "C05" {
 		c05.before, _ = os.ReadFile(rig.Drive)
@@ -673,6 +694,21 @@ func seqRun(prop, tier string, c Case, w *Worker) (res Result) {
 	var c04 *c04State
 	if prop == "C04" {
 		c04 = &c04State{}
+	}
+	if prop == "C04" && rig.Cfg.RS >= 100 && len(p.Ops) == 0 {
+		// with large records the interesting arithmetic happens near the end of a record: fill the first record almost up, so
+		// that the history's records get high block numbers and then cross into the next record
+		margin := 6000 + int(c.Seed%5)*6000 // room for about 3..15 more records in the first record
+		fill := Op{K: "create", A: "/filler", Len: rig.Cfg.RS*512 - margin, Dist: "random", DSeed: 1} // incompressible: the tape has to grow under every codec
+		p.Steps += 12
+		h.ops = append(h.ops, fill)
+		h.outs = append(h.outs, execOp(rig, fill))
+		applyModel(h.model, fill)
+		rig.LocksSettled()
+		if h.tree, err = WalkTree(rig.FS, true); err != nil {
+			h.violate("walk", "walk after the filler file: %v", err)
+			return
+		}
 	}
 	succMut, kinds := 0, map[string]bool{}
 	nsteps := p.Steps
@@ -692,6 +728,12 @@ func seqRun(prop, tier string, c Case, w *Worker) (res Result) {
 		h.outs = append(h.outs, out)
 		res.count("calls", 1)
 		res.count("calls_"+op.K, 1)
+		if op.Spell != 0 {
+			res.count("calls_with_unusual_spelling", 1)
+		}
+		if p.Exotic {
+			res.count("calls_in_exotic_histories", 1)
+		}
 		if out.OK {
 			res.count("calls_ok", 1)
 		} else {
